@@ -123,7 +123,8 @@ func defaultValue(value *ast.Value) *string {
 }
 
 func (t *Type) Interfaces() []Type {
-	if t.def == nil || t.def.Kind != ast.Object {
+	// object types and interface types report the interfaces they implement
+	if t.def == nil || (t.def.Kind != ast.Object && t.def.Kind != ast.Interface) {
 		return []Type{}
 	}
 
@@ -142,6 +143,10 @@ func (t *Type) PossibleTypes() []Type {
 
 	res := []Type{}
 	for _, pt := range t.schema.GetPossibleTypes(t.def) {
+		if pt.Kind != ast.Object {
+			// an interface implementing this interface is not a possible (runtime) type
+			continue
+		}
 		res = append(res, *WrapTypeFromDef(t.schema, pt))
 	}
 	return res
